@@ -19,7 +19,9 @@ CONSTANTS Part, NChunks,
           NQ,           \* searches per tree (sampled by a fixed arithmetic rule)
           NNDeep,       \* TRUE: the larger grid of query parameters in the model of Search
           NodeStep,     \* node longitudes of the lattice circles: multiples of NodeStep
-          IxThin        \* keep one of IxThin (pair, start, origin) combinations in the bulk families
+          IxThin,       \* keep one of IxThin (pair, start, origin) combinations in the bulk families
+          Ells          \* ellipsoids of the lattice intersections: 0 = unit-degree sphere; 1..4 = a = 180/pi, f = 0.1, -0.1, 0.2, -0.25
+                        \* with the exact solver (only the equator, where one degree of longitude is still one metre)
 VARIABLE v
 
 InChunk(S, C) == {x \in S : x % NChunks = C}
@@ -110,18 +112,21 @@ PHash(A, sA, B, sB, p) == 3 * A[1] + 5 * (A[2] \div NodeStep) + 7 * B[1] + 11 * 
 Geo(A, sA) == <<PLat(A, sA), PLon(A, sA), PAzi(A, sA)>>
 Pairs(C) == {ab \in Circles \X Circles : (ab[1][1] + 3 * (ab[1][2] \div NodeStep) + 5 * ab[2][1] + 7 * (ab[2][2] \div NodeStep)) % NChunks = C}
 
+SegEnds(A, sA, lA, B, sB, lB) ==
+  <<PLat(A, sA), PLon(A, sA), PLat(A, sA + lA), PLon(A, sA + lA), PLat(B, sB), PLon(B, sB), PLat(B, sB + lB), PLon(B, sB + lB)>>
+
 VecIX(C) ==
   \E ab \in Pairs(C) :
     LET A == ab[1]  B == ab[2]  m == Meet(A, B) IN
     \/ /\ m.kind = "cross"
        /\ \E sA \in Starts(A), sB \in Starts(B) :
-            \/ \E p \in Origins : PHash(A, sA, B, sB, p) % IxThin = 0 /\ v' = <<"ic", A, sA, B, sB, Geo(A, sA) \o Geo(B, sB), p, 0>>
+            \/ \E p \in Origins : PHash(A, sA, B, sB, p) % IxThin = 0 /\ v' = <<"ic", A, sA, B, sB, Geo(A, sA) \o Geo(B, sB), p, 0, 0>>
             \/ \E p \in {<<0, 0>>, <<70, -30>>}, R \in {100, 250, 400, 541} :
-                 PHash(A, sA, B, sB, <<p[1] + R, p[2]>>) % IxThin = 0 /\ v' = <<"ia", A, sA, B, sB, Geo(A, sA) \o Geo(B, sB), p, R>>
+                 PHash(A, sA, B, sB, <<p[1] + R, p[2]>>) % IxThin = 0 /\ v' = <<"ia", A, sA, B, sB, Geo(A, sA) \o Geo(B, sB), p, R, 0>>
     \/ /\ m.kind = "cross"            \* Next: both lines start at an intersection
        /\ \E i \in {0, 1} :
             LET sA == m.a0 + 180 * i  sB == m.b0 + 180 * i IN
-            Startable(A, sA) /\ Startable(B, sB) /\ v' = <<"in", A, sA, B, sB, Geo(A, sA) \o Geo(B, sB), <<0, 0>>, 0>>
+            Startable(A, sA) /\ Startable(B, sB) /\ v' = <<"in", A, sA, B, sB, Geo(A, sA) \o Geo(B, sB), <<0, 0>>, 0, 0>>
     \/ /\ m.kind = "cross"            \* Segment: arcs [s, s + len] of each circle, len < 180
        /\ \E sA \in Starts(A) \cup {m.a0, m.a0 - 40, m.a0 - 90}, sB \in Starts(B) \cup {m.b0, m.b0 - 100, m.b0 - 90},
              lA \in (IF Plain(A) THEN {40, 100, 179} ELSE {90}), lB \in (IF Plain(B) THEN {40, 100, 179} ELSE {90}) :
@@ -129,14 +134,34 @@ VecIX(C) ==
             /\ PHash(A, sA, B, sB, <<lA, lB>>) % (IF sA \in {m.a0, m.a0 - 40, m.a0 - 90} /\ sB \in {m.b0, m.b0 - 100, m.b0 - 90}
                                                     THEN (IxThin \div 6) + 1 ELSE IxThin) = 0
             /\ v' = <<"is", A, sA, lA, B, sB, lB,
-                      <<PLat(A, sA), PLon(A, sA), PLat(A, sA + lA), PLon(A, sA + lA), PLat(B, sB), PLon(B, sB), PLat(B, sB + lB), PLon(B, sB + lB)>> >>
+                      SegEnds(A, sA, lA, B, sB, lB), 0>>
     \/ /\ m.kind = "coin" /\ Plain(A) /\ Plain(B)     \* coincident circles: equator / meridians only (exact in floating point)
-       /\ \E sA \in Starts(A), sB \in Starts(B), p \in Origins :
-            PHash(A, sA, B, sB, p) % ((IxThin \div 2) + 1) = 0 /\ v' = <<"ic", A, sA, B, sB, Geo(A, sA) \o Geo(B, sB), p, 0>>
+       /\ \E ell \in Ells :
+          /\ ell > 0 => Equatorial(A) /\ Equatorial(B)
+          /\ \/ \E sA \in Starts(A), sB \in Starts(B), p \in Origins :
+                  PHash(A, sA, B, sB, p) % ((IF ell = 0 THEN 1 ELSE 2) * ((IxThin \div 2) + 1)) = 0
+                  /\ v' = <<"ic", A, sA, B, sB, Geo(A, sA) \o Geo(B, sB), p, 0, ell>>
+             \* Next: both lines start at one point of the common circle
+             \/ \E sA \in Starts(A) : LET sB == m.c * sA + m.off IN
+                  /\ Startable(B, sB) /\ (ell = 0 \/ PHash(A, sA, B, sB, <<0, 0>>) % 3 = 0)
+                  /\ v' = <<"in", A, sA, B, sB, Geo(A, sA) \o Geo(B, sB), <<0, 0>>, 0, ell>>
+             \* Segment: two pieces of the common circle; Y starts at the point of X's circle at arc sA + u (before, inside, at the ends
+             \* of, beyond X) and runs in B's direction: overlapping, nested, touching and disjoint pieces in both orientations
+             \/ \E sA \in Starts(A), lA \in (IF ell = 0 THEN {40, 100, 179} ELSE {40, 100}), lB \in {40, 100} :
+                \E u \in {-60, -20, 0, 10, 70, 150} \cup {lA, lA + 30, -lB, lA - lB} :
+                  LET sB == m.c * (sA + u) + m.off IN
+                  /\ Startable(A, sA) /\ Startable(A, sA + lA) /\ Startable(B, sB) /\ Startable(B, sB + lB)
+                  /\ PHash(A, sA, B, sB, <<lA, lB>>) % (IF ell = 0 THEN (IxThin \div 2) + 1 ELSE IxThin + 1) = 0
+                  /\ v' = <<"is", A, sA, lA, B, sB, lB, SegEnds(A, sA, lA, B, sB, lB), ell>>
+    \* Next on one geodesic taken twice, started at a vertex (extreme latitude, heading east or west): every integer latitude
+    \/ /\ ab[1] = <<0, 0>> /\ ab[2][1] = 0
+       /\ \E ell \in Ells, lat \in {x \in -89..89 : x % (360 \div NodeStep) = ab[2][2] \div NodeStep}, lon \in {20, -135}, azi \in {90, -90}, c \in {1, -1} :
+            v' = <<"nv", ell, lat, lon, azi, c>>
 
 SamePoint(A, s, B, t) == PLat(A, s) = PLat(B, t) /\ (Abs(PLat(A, s)) = 90 \/ PLon(A, s) = PLon(B, t))
 IXInv ==
-  v[1] \in {"ic", "ia", "in"} =>
+  /\ v[1] = "nv" => v[3] \in -89..89 /\ v[5] \in {90, -90} /\ v[6] \in {1, -1}
+  /\ v[1] \in {"ic", "ia", "in"} =>
     LET A == v[2]  sA == v[3]  B == v[4]  sB == v[5]  m == Meet(A, B)  mr == Meet(B, A) IN
     IF m.kind = "cross" THEN
       LET x0 == m.a0 - sA  y0 == m.b0 - sB  p0 == v[7] IN
@@ -153,15 +178,39 @@ IXInv ==
                                                      <<360, 0>>, <<-360, 0>>, <<0, 360>>, <<0, -360>>})
     ELSE
       /\ m.kind = "coin" /\ mr.kind = "coin" /\ mr.c = m.c
+      /\ v[9] > 0 => Equatorial(A) /\ Equatorial(B)
       /\ \A s \in {0, 30, 100, 200} : LET t == m.c * s + m.off IN
            Startable(A, s) /\ Startable(B, t) => SamePoint(A, s, B, t) /\ PAzi(B, t) = (IF m.c = 1 THEN PAzi(A, s) ELSE Norm180(PAzi(A, s) + 180))
+      \* Next: both lines start at one point, the coincidence line passes through the origin
+      /\ v[1] = "in" => SamePoint(A, sA, B, sB) /\ CoinK0(m, sA, sB) = 0
+                         /\ PAzi(B, sB) = (IF m.c = 1 THEN PAzi(A, sA) ELSE Norm180(PAzi(A, sA) + 180))
 
 SegInv ==
   v[1] = "is" =>
-    LET m == Meet(v[2], v[5])  S == SegmentSet(2 * (m.a0 - v[3]), 2 * (m.b0 - v[6]), 2 * v[4], 2 * v[7]) IN
-    /\ S # {}
-    /\ \A a \in S : a[1][1] % 2 = 0 /\ a[1][2] % 2 = 0 /\ SamePoint(v[2], v[3] + a[1][1] \div 2, v[5], v[6] + a[1][2] \div 2)
-    /\ (\E a \in S : a[2] = 0) => \A a \in S : InBoth(a[1], 2 * v[4], 2 * v[7])
+    LET m == Meet(v[2], v[5]) IN
+    IF m.kind = "cross" THEN
+      LET S == SegmentSet(2 * (m.a0 - v[3]), 2 * (m.b0 - v[6]), 2 * v[4], 2 * v[7]) IN
+      /\ S # {}
+      /\ \A a \in S : a[1][1] % 2 = 0 /\ a[1][2] % 2 = 0 /\ SamePoint(v[2], v[3] + a[1][1] \div 2, v[5], v[6] + a[1][2] \div 2)
+      /\ (\E a \in S : a[2] = 0) => \A a \in S : InBoth(a[1], 2 * v[4], 2 * v[7])
+    ELSE
+      \* pieces of one circle: the admissible answers (on the doubled integer lattice) exist, are common points of the two circles,
+      \* lie inside both pieces whenever the pieces overlap (and only then can segmode be 0 away from the ends), and the
+      \* specification is symmetric under the exchange of X and Y
+      LET A == v[2]  sA == v[3]  B == v[5]  sB == v[6]  SX == 2 * v[4]  SY == 2 * v[7]
+          Ks == CoinKs(m, sA, sB)  S == SegCoinSet(m.c, Ks, SX, SY)
+          mr == Meet(B, A)  Kr == CoinKs(mr, sB, sA)
+          ov == Overlap(m.c, Ks, SX, SY)
+          inner(p) == p[1] > 0 /\ p[1] < SX /\ p[2] > 0 /\ p[2] < SY
+      IN /\ m.kind = "coin" /\ mr.kind = "coin" /\ mr.c = m.c
+         /\ v[9] > 0 => Equatorial(A) /\ Equatorial(B)
+         /\ S # {}
+         /\ \A a \in S : (a[1][1] % 2 = 0 /\ a[1][2] % 2 = 0) => SamePoint(A, sA + a[1][1] \div 2, B, sB + a[1][2] \div 2)
+         /\ ov = Overlap(mr.c, Kr, SY, SX) /\ Touch(m.c, Ks, SX, SY) = Touch(mr.c, Kr, SY, SX)
+         /\ \A a \in S : SegCoinOK(<<a[1][2], a[1][1]>>, 3 * (((a[2] + 4) % 3) - 1) + (((a[2] + 4) \div 3) - 1), mr.c, Kr, SY, SX)
+         /\ ov => \A a \in S : InBoth(a[1], SX, SY)
+         /\ ov => \E a \in S : a[2] = 0 /\ inner(a[1])
+         /\ ~ov => \A a \in S : ~inner(a[1]) /\ (a[2] = 0 => Touch(m.c, Ks, SX, SY))
 
 Init == v = <<"root">>
 Next ==
